@@ -44,6 +44,9 @@ Section Assign.
     flat_map (fun i => map (fun s => (i, s)) (assignments t)) (seq 0 n).
 End Assign.
 
+Notation ftree R := (tree (nat -> R) (nat -> nat -> R)) (only parsing).
+Notation settree R := (tree (nat -> bool) (nat -> nat -> R)) (only parsing).
+
 Section Spec.
   Variable R : Type.
   Variable o : sr_ops R.
@@ -55,7 +58,7 @@ Section Spec.
 
   (* -------- general leaf weights (a leaf contributes [w(state)]) -------- *)
 
-  Definition ftree := tree (nat -> R) (nat -> nat -> R).
+  Local Notation ftree := (tree (nat -> R) (nat -> nat -> R)).
 
   (** product over the edges of P_e[parent][child], times the leaf weights *)
   Fixpoint weight (t : ftree) (i : nat) (s : stree) : R :=
@@ -81,7 +84,7 @@ Section Spec.
   (* -------- leaf *sets* (the property's wording) -------- *)
 
   (** leaves carry the set of states compatible with the observed symbol *)
-  Definition settree := tree (nat -> bool) (nat -> nat -> R).
+  Local Notation settree := (tree (nat -> bool) (nat -> nat -> R)).
 
   (** does the assignment give every leaf a state of its set? *)
   Fixpoint compatible (t : settree) (i : nat) (s : stree) : bool :=
